@@ -1,0 +1,92 @@
+// Copyright (c) 2026, Daniel Martí <mvdan@mvdan.cc>
+// See LICENSE for licensing information
+
+//go:build verif
+
+package interp
+
+import (
+	"io"
+	"os"
+	"time"
+)
+
+// VerifFile is what a simulated pipe end, FIFO or standard input must
+// implement; [*os.File] does too.
+type VerifFile interface {
+	io.ReadWriteCloser
+	SetReadDeadline(t time.Time) error
+}
+
+// VerifHooks lets a deterministic simulation harness own the scheduling
+// points, goroutine identities, pipes and named pipes of the interpreter.
+// It only exists with the "verif" build tag.
+type VerifHooks struct {
+	// Yield is called at scheduling points: before each statement, and
+	// right after the interpreter was woken up from waiting on a goroutine.
+	Yield func(point string)
+	// Spawn is called by a goroutine about to start another one; the token
+	// is handed to Start as the first thing the new goroutine does,
+	// and End is called when that goroutine finishes.
+	Spawn func() uint64
+	Start func(tok uint64)
+	End   func()
+	// NewPipe replaces [os.Pipe].
+	NewPipe func() (VerifFile, io.WriteCloser, error)
+	// WrapStdin adapts a reader given via [StdIO] into the runner's stdin.
+	WrapStdin func(r io.Reader) (VerifFile, error)
+	// Mkfifo and OpenFifo replace mkfifo(2) and open(2) on the named pipes
+	// used by process substitutions.
+	Mkfifo   func(path string) error
+	OpenFifo func(path string, flag int) (VerifFile, error)
+}
+
+// VerifSim is nil unless a simulation harness installs its hooks,
+// which must happen before any [Runner] is used.
+var VerifSim *VerifHooks
+
+func verifYield(point string) {
+	if h := VerifSim; h != nil {
+		h.Yield(point)
+	}
+}
+
+func verifSpawn() uint64 {
+	if h := VerifSim; h != nil {
+		return h.Spawn()
+	}
+	return 0
+}
+
+func verifStart(tok uint64) {
+	if h := VerifSim; h != nil {
+		h.Start(tok)
+	}
+}
+
+func verifEnd() {
+	if h := VerifSim; h != nil {
+		h.End()
+	}
+}
+
+func verifActive() bool { return VerifSim != nil }
+
+func verifMkfifo(path string) (handled bool, err error) {
+	if h := VerifSim; h != nil {
+		return true, h.Mkfifo(path)
+	}
+	return false, nil
+}
+
+func verifOpenFifo(path string, flag int) (VerifFile, error) {
+	return VerifSim.OpenFifo(path, flag)
+}
+
+// openFifo opens a named pipe created by the interpreter itself.
+func openFifo(path string, flag int) (VerifFile, error) {
+	if verifActive() {
+		return verifOpenFifo(path, flag)
+	}
+	return os.OpenFile(path, flag, 0)
+}
